@@ -214,6 +214,18 @@ func c06scenarios(probe string) []c06scn {
 		cfg["packages"] = pkgs
 		out = append(out, c06scn{name: "five same-named source packages resolving to one output file (must be refused)", files: files, cfg: cfg, refused: true})
 	}
+	{ // ONE output file reached through different spellings of its path (relative, through {{.ConfigDir}}, with a
+		// detour): it is one file, holding all its mocks, whatever order the entries are visited in
+		cfg := testifyRoot()
+		cfg["filename"], cfg["pkgname"], cfg["formatter"] = "mocks.go", "mocks", "noop"
+		cfg["packages"] = core.M{P("a"): core.M{"interfaces": core.M{
+			"A1": core.M{"config": core.M{"dir": "mocks"}},
+			"A2": core.M{"config": core.M{"dir": "{{.ConfigDir}}/mocks"}},
+			"A3": core.M{"config": core.M{"dir": "{{.InterfaceDir}}/../mocks"}},
+			"A4": core.M{"config": core.M{"dir": "./a/../mocks/."}},
+		}}}
+		out = append(out, c06scn{"one output file named through four spellings of its path", map[string]string{"a/a.go": goIface("a", "A1", "A2", "A3", "A4")}, cfg, false})
+	}
 	{ // many interfaces per source file and per output file, several packages: the order of the mocks inside a file
 		// is the declaration order, whatever order the packages were loaded or visited in
 		cfg := testifyRoot()
